@@ -2131,6 +2131,7 @@ JANET_CORE_FN(os_touch,
 JANET_CORE_FN(os_remove,
               "(os/rm path)",
               "Delete a file. Returns nil.") {
+    janet_sandbox_assert(JANET_SANDBOX_FS_WRITE);
     janet_fixarity(argc, 1);
     const char *path = janet_getcstring(argv, 0);
     int status = remove(path);
@@ -2142,6 +2143,7 @@ JANET_CORE_FN(os_remove,
 JANET_CORE_FN(os_readlink,
               "(os/readlink path)",
               "Read the contents of a symbolic link. Does not work on Windows.\n") {
+    janet_sandbox_assert(JANET_SANDBOX_FS_READ);
     janet_fixarity(argc, 1);
 #ifdef JANET_WINDOWS
     (void) argc;
